@@ -10,6 +10,9 @@ file-enumeration orders (schedules owned by the harness).
 """
 from __future__ import annotations
 
+import json
+import re
+
 import itertools
 
 from vfw import fordapi, model, refsem, render
@@ -460,6 +463,20 @@ def gen_case(ch: Chooser, excl=()):
         c["expect"] = sorted(set(c["expect"]))
         merged.append(c)
     b.refs = merged
+    if "intrinsic_named_module" not in b.excl and ch.bool(1, 5):
+        # one module of the project is named like a module FORD knows as intrinsic / third-party (a serial MPI stub,
+        # a replacement omp_lib): the project's own module is the one that is used
+        mods = sorted({u["name"] for f in proj["files"] for u in f["units"] if u["k"] == "module" and re.fullmatch(r"m\d", u["name"])})
+        if mods:
+            old, new = ch.choice(mods), ch.choice(["mpi", "omp_lib", "iso_fortran_env"])
+            text = json.dumps({"proj": proj, "refs": b.refs})
+            text = re.sub(rf"\b{old}\b", new, text)
+            data = json.loads(text)
+            proj, b.refs = data["proj"], data["refs"]
+            for r in b.refs:
+                if r["slot"] == "calls":
+                    r["expect"] = sorted(set(r["expect"]))
+            b.feats.add("module-named-like-intrinsic")
     files, used = render.render_project(proj, ch, features={"comments": False})
     return {"files": files, "refs": b.refs, "stub": stub_source(b.stubs), "classes": sorted(b.feats),
             "nontrivial": nontrivial, "order_seed": ch.int(256)}
